@@ -20,20 +20,26 @@ import numpy
 from .. import engine, fpx
 from ..translate import blocks
 
-THEOREMS = ["vecsum_value", "renorm_eager_value", "renorm_functional_value", "add_sub_value", "renorm_two_terms_normal"]
+THEOREMS = ["vecsum_value", "renorm_eager_value", "renorm_functional_value", "add_sub_value", "renorm_two_terms_normal", "multiply_exact", "square_exact"]
 SEARCHED = ["non-overlap / decreasing magnitude after at most two passes", "fast=True variants (decreasing-magnitude precondition)",
             "size-limited variants", "multiply / square: error < 1 ulp of the leading term", "overflow-free hypothesis"]
 TRUSTED = [
     "Lean 4 kernel; axioms propext, Classical.choice, Quot.sound only",
-    "hand model Models/Renorm.lean of apmath.renormalize / vecsum / nztopk(k = len), tied by correspondence on bit patterns each run",
+    "hand model Models/Renorm.lean of apmath.renormalize / vecsum / nztopk(k = len) / multiply / square (raw accumulation), tied by correspondence on bit patterns each run",
+    "two_prod exact on its domain (TwoProdOK): hypothesis of the product theorems; Dekker's product is proved exact in C10",
     "FP theory over Q (overflow excluded by hypothesis; any round-to-nearest)",
     "FP/Soft.lean == machine arithmetic (validated against NumPy)",
 ]
 LEVEL_TEXT = ("Proof for value preservation: for every list length, precision, emin and round-to-nearest tie rule, VecSum, the eager renormalisation and the "
               "functional (select-based, fixed-length, zero-compacted) renormalisation return lists with exactly the input sum, hence add/subtract of expansions "
               "are exact without size limit (list induction from the proved 2Sum). The model is a hand port tied by bit-level correspondence with the real eager and "
-              "functional code. Non-overlap after <= 2 passes, fast variants, size limits and the < 1 ulp bound for products are decided by exact-rational search only.")
-LEVEL_NOTE = "Overflow-free rational model; non-overlap (Boldo-Joldes-Muller-Popescu) and product error bound are not theorems here."
+              "functional code. PRODUCTS (Props/C12Prod.lean, Lemmas/RenormProd.lean): the model of apmath.multiply / apmath.square (diagonal accumulation mulRaw / squareRaw: two_prod of every pair, "
+              "VecSum per diagonal, doubling of off-diagonal terms, then renormalize) is tied to the real code by bit-level correspondence (the driver uses the REGENERATED traced two_prod), and multiply_exact / square_exact "
+              "prove for EVERY pair of lengths, every precision and round-to-nearest: the result (raw, eager-renormalised, functional-renormalised) has exactly the sum seq1.sum*seq2.sum resp. (seq.sum)^2, given an error-free "
+              "two_prod on the operand pairs (TwoProdOK with a domain predicate — Dekker's product, proved exact on its documented domain in C10) and no truncation by a size limit; the combinatorial core is "
+              "sum_n sum_i [i <= n, n-i < L2] a_i b_(n-i) = (sum a)(sum b) (diag_sum_mul, diag_sum_sq). So the '< 1 ulp of the leading term' clause holds with error 0 whenever nothing is truncated. "
+              "Non-overlap after <= 2 passes, fast variants, size-limit truncation (where the < 1 ulp bound is needed) are decided by exact-rational search only.")
+LEVEL_NOTE = "Overflow-free rational model; non-overlap (Boldo-Joldes-Muller-Popescu) and the product error bound under size-limit truncation are not theorems here; untruncated products are proved exact."
 TECHNIQUE = "Lean 4 list-induction proof over an arithmetic-generic model + bit-level correspondence + exact-rational search"
 
 FMTS = ["float16", "float32", "float64"]
@@ -149,8 +155,6 @@ def finite_list(bits, fmt):
 def run(ctx):
     ctx.rule = ("expansions of length 1..6 (non-overlapping / overlapping / equal magnitudes with cancellation / arbitrary order / subnormal range, interior zeros) "
                 "x {eager, functional} x {safe, fast} x size limits; non-trivial = at least two non-zero items and all results finite; distinct by bit patterns")
-    broken = ctx.lean_stage(["FAVerif.Props.C12"], THEOREMS)
-
     # (b) traced functional variants for lengths 1..6: 3-way cross-check through the engine
     from functional_algorithms import apmath
 
@@ -161,14 +165,31 @@ def run(ctx):
             V[nm] = dict(nargs=n, clause="renorm", opts=dict(fast=fast, n=n),
                          trace=lambda fmt, fast=fast, n=n: engine.trace_expr_fn(lambda c, *a: apmath.renormalize(c, list(a), functional=True, fast=fast), n, fmt),
                          eager=lambda fmt, a, fast=fast: apmath.renormalize(np_ctx(fmt), list(a), functional=True, fast=fast))
+    # the error-free product the expansion products are built on (used by the Lean driver as `two_prod` on bit patterns)
+    V["two_prod"] = dict(nargs=2, clause="two_prod", opts=dict(fast=False, n=2),
+                         trace=lambda fmt: engine.trace_expr_fn(lambda c, x, y: apmath.two_prod(c, x, y), 2, fmt),
+                         eager=lambda fmt, a: apmath.two_prod(np_ctx(fmt), a[0], a[1]))
     progs, errors = engine.generate(ctx, V, "C12", FMTS)
+    # the regenerated programs are compiled too: the driver uses the traced two_prod as the error-free product
+    broken = ctx.lean_stage(["FAVerif.Props.C12", "FAVerif.Props.C12Prod"], THEOREMS, extra_targets=["FAVerif.Generated.C12"])
 
     def gen_inputs(c, fmt, v, n):
+        if v["clause"] == "two_prod":
+            p_, ew_, w_ = fpx.FMT[fmt]
+            mid_ = (1 << (ew_ - 1)) - 1
+            return [tuple(fpx.pattern(fmt, c.rng.getrandbits(1), mid_ + c.rng.randrange(-p_, p_), fpx.directed_patterns(c.rng, fmt, 1)[0] & ((1 << (p_ - 1)) - 1))
+                          for _ in range(2)) for _ in range(n)]
         return [tuple(gen_expansion(c.rng, fmt, v["nargs"], v["opts"]["fast"])) for _ in range(n)]
 
     def check_traced(v, fmt, t, outs, allfin, prog):
         if not finite_list(outs, fmt) or not allfin:
             return None
+        if v["clause"] == "two_prod":
+            # documented domain: the error term must be representable
+            a_, b_ = fr(t[0], fmt), fr(t[1], fmt)
+            if a_ * b_ != 0 and abs(a_ * b_) < Fraction(2) ** (fpx.emin(fmt) + 2 * fpx.FMT[fmt][0]):
+                return None
+            return None if fr(outs[0], fmt) + fr(outs[1], fmt) == a_ * b_ else "two_prod: hi + lo != x*y"
         if v["opts"]["fast"]:
             return None  # decided below with the precondition made explicit
         if sum(fr(b, fmt) for b in outs) != sum(fr(b, fmt) for b in t):
@@ -303,6 +324,14 @@ def run(ctx):
             continue
         ctx.case(key=(op, fmt, tuple(b1), tuple(b2), functional), nontrivial=True)
         ys = [fr(b, fmt) for b in out]
+        if op in ("multiply", "square"):
+            # hand model of the product (raw accumulation + renormalisation cut to the dtype's size limit) vs the real result
+            msize = {"float16": 4, "float32": 12, "float64": 40}[fmt]
+            pmode = f"{op}-{'functional' if functional else 'eager'}"
+            arg = ",".join(map(str, b1)) + ("|" + ",".join(map(str, b2)) if op == "multiply" else "")
+            lines.append(f"{W[fmt]} {pmode} {msize} {arg}")
+            expect.append((fmt, [b1, b2], pmode, msize, ",".join(str(canon0(b, fmt)) for b in out)))
+            ctx.count(f"product-correspondence:{op}")
         if op in ("add", "subtract"):
             exact = sum(x1) + (sum(x2) if op == "add" else -sum(x2))
             if sum(ys) != exact:
@@ -325,6 +354,8 @@ def run(ctx):
             bad += 1
             if bad <= 3:
                 item = ctx.broken("correspondence:Renorm", json.dumps(dict(fmt=e[0], bits=e[1], mode=e[2], fast=e[3], model=o, impl=e[4])))
+                if "-" in e[2]:
+                    continue   # product correspondence: the property clause on the real result was already evaluated above
                 # directed search: does the real result on this input violate the property?
                 xs = [fr(b, e[0]) for b in e[1]]
                 impl = [int(t) if t != "nan" else "nan" for t in e[4].split(",")] if e[4] else []
